@@ -259,6 +259,15 @@ var baseTexts = []string{
 func init() {
 	// a text that starts with a byte order mark (index 7)
 	baseTexts = append(baseTexts, "\ufeffvars { monetary $amt account $dst }\nsend $amt (source = @world destination = $dst)")
+	// texts whose diagnostics span several lines (indices 8..11): the range of a bad allotment sum
+	// over an indented block ends at a lower column than it starts, a call written over several lines
+	// has too many arguments, a multi-line range that ends at a higher column, an unknown function
+	baseTexts = append(baseTexts,
+		"vars { account $dst }\nsend [USD 10] (\n    source = @world\n    destination = {\n        1/2 to $dst\n        1/3 to @b\n    }\n)",
+		"vars { monetary $amt }\nsend $amt (source = @world destination = @x)\n        set_tx_meta(\"k\",\n  $amt,\n 1)\n            set_account_meta(\n@a,\n\"k\")",
+		"vars { account $dst }\nsend [USD 10] (\nsource = {\n1/2 from @a\n1/3 from $dst\n                    }\ndestination = $dst)",
+		"vars { number $n }\n                    no_such_function(\n$n,\n$n\n)\nsend [USD $n] (source = @world destination = {\n 2/3 to @a 2/3 to @b\n})",
+	)
 }
 
 // syncKind is what the server advertises in its answer to initialize (1 = full texts only,
@@ -620,6 +629,25 @@ func runC19(c *fw.Ctx) {
 	uriPerm = perms[0]
 	if c.Want(0, "exh/done") {
 		c.Count("exhaustive_spaces_completed", 1)
+	}
+	// diagnostics that span several lines, published on open and on change
+	mi := 0
+	for ti := 8; ti <= 11; ti++ {
+		for _, ops := range [][]op{
+			{{kind: "openplain", uri: 0, text: ti}, {kind: "symbols", uri: 0}},
+			{{kind: "open", uri: 0, text: ti}, {kind: "change", uri: 0, text: ti}, {kind: "symbols", uri: 0}},
+			{{kind: "open", uri: 0, text: 0}, {kind: "change", uri: 0, text: ti}, {kind: "change", uri: 0, text: 1}, {kind: "change", uri: 0, text: ti}},
+			{{kind: "open", uri: 1, text: ti}, {kind: "open", uri: 0, text: 1}, {kind: "change", uri: 1, text: ti}},
+		} {
+			mi++
+			if !c.Want(40_000_000+mi, fmt.Sprintf("multiline/%d/%d", ti, mi)) {
+				continue
+			}
+			if !rn.replay(ops, "multiline") {
+				return
+			}
+			c.Count("multiline_diagnostic_histories", 1)
+		}
 	}
 	// random long histories over 6 URI shapes
 	n := c.N(600, 20000)
